@@ -114,22 +114,49 @@ def known_for(prop, status="known"):
     return [e for e in load_known() if e["property"] == prop and e["status"] == status]
 
 
+class KnownMatcher:
+    """class tags covered by the known findings of a property: exact tags
+    (`classes`) and fnmatch patterns (`class_globs`)"""
+
+    def __init__(self, prop):
+        import fnmatch
+        self._fn = fnmatch.fnmatchcase
+        self.entries = known_for(prop)
+        self.exact = {}
+        self.globs = []
+        for e in self.entries:
+            for c in e.get("classes", []):
+                self.exact[c] = e
+            for g in e.get("class_globs", []):
+                self.globs.append((g, e))
+
+    def entry(self, tag):
+        if tag in self.exact:
+            return self.exact[tag]
+        for g, e in self.globs:
+            if self._fn(tag, g):
+                return e
+        return None
+
+    def __contains__(self, tag):
+        return self.entry(tag) is not None
+
+
 def match_known(prop, violation):
-    """A known finding covers a violation when the sub-check agrees and the
-    finding's class tag is among the tags the generator attached to the case."""
-    tags = set(violation["case"].get("cls", []) if isinstance(violation["case"], dict) else [])
-    for e in known_for(prop):
-        if tags & set(e["classes"]):
+    """A known finding covers a violation when one of the class tags the
+    generator attached to the case is listed by the finding."""
+    tags = violation["case"].get("cls", []) if isinstance(violation["case"], dict) else []
+    km = KnownMatcher(prop)
+    for t in tags:
+        e = km.entry(t)
+        if e is not None:
             return e
     return None
 
 
 def excluded_classes(prop):
-    """class tags excluded from generation because a known finding covers them"""
-    out = set()
-    for e in known_for(prop):
-        out.update(e["classes"])
-    return out
+    """matcher for class tags excluded from generation / reporting because a known finding covers them"""
+    return KnownMatcher(prop)
 
 
 def write_replay(prop, violation):
